@@ -1,10 +1,27 @@
+/-
+Driver for C14: one op per modelled function.
+  mass           {"comp": [[k, v]...]}        -> rational | IndexError                 (mass_from_composition)
+  formula_mass   {"s": str}                   -> rational | exception class name       (Substance.from_formula(s).mass:
+                                                                                         C01 parser model, then the mass loop)
+  species_mass   {"s": str, "phases": [str]}  -> rational | exception class name       (Species.from_formula(s, phases).mass)
+  ast_mass       {"ast": formula AST}         -> render TAB occurrenceMass TAB formula_mass(render) TAB wf
+                                                 (specification value of Props/C14 `formula_mass_spec` next to the model's answer)
+  atomic_number  {"name": str}                -> Z | ValueError
+  mass_fractions {"masses": [...], "coeffs": [...]} -> [rationals] | ZeroDivisionError
+  group          {"g": n}                     -> [Z...]
+-/
 import ChemModel.Basic.Proto
+import ChemModel.Driver.FormulaJson
 import ChemModel.Model.Periodic
-open ChemModel.Proto ChemModel.Periodic Lean
+open ChemModel.Proto ChemModel.Periodic ChemModel.FormulaJson Lean
 
 def showOptRat : Option Rat → String
   | none => "IndexError"
   | some q => showRat q
+
+def showMass : Except MassErr Rat → String
+  | .ok q => showRat q
+  | .error e => e.pyName
 
 def getComp (j : Json) (k : String) : Except String Comp := do
   (← getArr j k).mapM fun p => do
@@ -18,12 +35,21 @@ def getComp (j : Json) (k : String) : Except String Comp := do
 def h : Handler := fun op j =>
   match op with
   | "mass" => do pure (showOptRat (massFromComposition (← getComp j "comp")))
+  | "formula_mass" => do pure (showMass (formulaMass (← getStr j "s")))
+  | "species_mass" => do
+      let phases ← getStrList j "phases"
+      pure (showMass (speciesMass (phases.map String.toList) (← getStr j "s")))
+  | "ast_mass" => do
+      let f ← getFormula j "ast"
+      pure (f.renderStr ++ "\t" ++ showRat (occurrenceMass f) ++ "\t" ++ showMass (formulaMass f.renderStr)
+        ++ "\t" ++ toString f.wf)
   | "atomic_number" => do
       match atomicNumber (← getStr j "name") with
       | some z => pure (toString z)
       | none => pure "ValueError"
   | "mass_fractions" => do
       let ms ← getRatList j "masses"; let vs ← getRatList j "coeffs"
+      if ms.length ≠ vs.length then .error "!bad-arg:lengths" else
       match massFractions (ms.zip vs) with
       | some l => pure (showRatList l)
       | none => pure "ZeroDivisionError"
